@@ -1157,27 +1157,40 @@ LB_changed(LB* self, PyObject* ignored)
             cache = c
         return cache
 */
+/* Returns a new reference.  Hashing and comparing keys can run arbitrary
+   code, including ``self.changed()``, which releases the caches: the
+   dictionary being searched is kept alive meanwhile, and the caller owns
+   what it gets back. */
 static PyObject*
 _subcache(PyObject* cache, PyObject* key)
 {
     PyObject* subcache;
 
+    Py_INCREF(cache);
     subcache = PyDict_GetItem(cache, key);
     if (subcache == NULL) {
         int status;
 
         subcache = PyDict_New();
-        if (subcache == NULL)
+        if (subcache == NULL) {
+            Py_DECREF(cache);
             return NULL;
+        }
         status = PyDict_SetItem(cache, key, subcache);
-        Py_DECREF(subcache);
-        if (status < 0)
+        if (status < 0) {
+            Py_DECREF(subcache);
+            Py_DECREF(cache);
             return NULL;
+        }
+    } else {
+        Py_INCREF(subcache);
     }
+    Py_DECREF(cache);
 
     return subcache;
 }
 
+/* Returns a new reference. */
 static PyObject*
 _getcache(LB* self, PyObject* provided, PyObject* name)
 {
@@ -1189,8 +1202,11 @@ _getcache(LB* self, PyObject* provided, PyObject* name)
     if (cache == NULL)
         return NULL;
 
-    if (name != NULL && PyObject_IsTrue(name))
-        cache = _subcache(cache, name);
+    if (name != NULL && PyObject_IsTrue(name)) {
+        PyObject* subcache = _subcache(cache, name);
+        Py_DECREF(cache);
+        cache = subcache;
+    }
 
     return cache;
 }
@@ -1253,8 +1269,8 @@ _lookup(LB* self,
         int status;
 
         /* The call can run arbitrary code, including ``self.changed()``,
-           which releases the caches: keep ours alive until we stored. */
-        Py_INCREF(cache);
+           which releases the caches: we own ours, so it stays alive
+           until we stored. */
         result = PyObject_CallMethodObjArgs(
           OBJECT(self), str_uncached_lookup, required, provided, name, NULL);
         if (result == NULL) {
@@ -1271,6 +1287,7 @@ _lookup(LB* self,
         }
     } else {
         Py_INCREF(result);
+        Py_DECREF(cache);
         Py_DECREF(required);
     }
 
@@ -1336,6 +1353,7 @@ _lookup1(LB* self,
     if (result == NULL) {
         PyObject* tup;
 
+        Py_DECREF(cache);
         tup = PyTuple_New(1);
         if (tup == NULL)
             return NULL;
@@ -1348,6 +1366,7 @@ _lookup1(LB* self,
             result = default_;
         }
         Py_INCREF(result);
+        Py_DECREF(cache);
     }
 
     return result;
@@ -1524,8 +1543,7 @@ _lookupAll(LB* self, PyObject* required, PyObject* provided)
     if (result == NULL) {
         int status;
 
-        /* See note in _lookup: keep the cache alive across the call. */
-        Py_INCREF(cache);
+        /* See note in _lookup: we own the cache across the call. */
         result = PyObject_CallMethodObjArgs(
           OBJECT(self), str_uncached_lookupAll, required, provided, NULL);
         if (result == NULL) {
@@ -1542,6 +1560,7 @@ _lookupAll(LB* self, PyObject* required, PyObject* provided)
         }
     } else {
         Py_INCREF(result);
+        Py_DECREF(cache);
         Py_DECREF(required);
     }
 
@@ -1604,8 +1623,7 @@ _subscriptions(LB* self, PyObject* required, PyObject* provided)
     if (result == NULL) {
         int status;
 
-        /* See note in _lookup: keep the cache alive across the call. */
-        Py_INCREF(cache);
+        /* See note in _lookup: we own the cache across the call. */
         result = PyObject_CallMethodObjArgs(
           OBJECT(self), str_uncached_subscriptions, required, provided, NULL);
         if (result == NULL) {
@@ -1622,6 +1640,7 @@ _subscriptions(LB* self, PyObject* required, PyObject* provided)
         }
     } else {
         Py_INCREF(result);
+        Py_DECREF(cache);
         Py_DECREF(required);
     }
 
